@@ -65,7 +65,6 @@ func VerifC10_wrappers() {
 	if create != 0 {
 		vfTag("created-by-subpackage")
 	}
-	vfFill(t, a, b)
 	ref := tabular.New()
 	vfFill(ref, a, b)
 	maxDepth := 1
@@ -73,15 +72,50 @@ func VerifC10_wrappers() {
 		maxDepth = 2
 	}
 	depth := vfChoice("depth", maxDepth+1)
+	// wrappers may be put around the table before or after it is filled
+	fillFirst := vfChoice("fill-first", 2) == 1
+	if fillFirst {
+		vfFill(t, a, b)
+	} else {
+		vfTag("wrapped-while-empty")
+	}
 	w := t
 	for d := 0; d < depth; d++ {
 		w = vfWrapKind(w, vfChoice(vfName("wrap", d), 5))
 		vfTag("wrapped")
 	}
+	if !fillFirst {
+		vfFill(w, a, b)
+	}
 	var refOut, out, viaWrap, viaTo, viaAuto string
 	var refErr, err, errWrap, errTo, errAuto error
 	var buf bytes.Buffer
 	format := vfChoice("format", 5)
+	haveDirect := false
+	var dOut string
+	var dErr error
+	// the wrapper object that was put around the table (possibly while it was still empty) is itself a
+	// renderer: when it is of the target format, its own Render must agree as well
+	if rt, ok := w.(RenderTable); ok {
+		match := false
+		switch rt.(type) {
+		case *csv.CSVTable:
+			match = format == 0
+		case *json.JSONTable:
+			match = format == 1
+		case *markdown.MarkdownTable:
+			match = format == 2
+		case *texttable.TextTable:
+			match = format == 3 && create != 8 // auto.New("utf8-light") carries another decoration
+		case *html.HTMLTable:
+			match = format == 4
+		}
+		if match {
+			// first of all renders: nothing else has wrapped the table again yet
+			haveDirect = true
+			dOut, dErr = rt.Render()
+		}
+	}
 	switch format {
 	case 0:
 		refOut, refErr = csv.Render(ref)
@@ -116,6 +150,12 @@ func VerifC10_wrappers() {
 		viaAuto, errAuto = Render(w, "HTML")
 	}
 	viaTo = buf.String()
+	if haveDirect {
+		vfAssert((dErr == nil) == (refErr == nil), "existing-wrapper-same-error-status")
+		if refErr == nil {
+			vfAssert(dOut == refOut, "existing-wrapper-renders-same-bytes")
+		}
+	}
 	vfObserveStr("ref", refOut)
 	vfObserveStr("out", out)
 	vfAssert((err == nil) == (refErr == nil), "same-error-status")
